@@ -10,9 +10,16 @@
 //! trusted: R15 (slices): pay_route_internal: the loop that classifies the per-path send results (R6: `for (res, path) in results.iter().zip(route.paths.iter())` becomes an index loop over the shorter length; body verbatim) and the expression giving the retry amount; sending the paths and building the error value are dropped and not claimed; APIError reduced to three variants
 //! assume: fail_htlc: a failure attributed to a blinded path carries no short_channel_id and the failed path has a blinded tail (debug_asserts on decode_onion_failure's result)
 //! assume: callers keep the representation invariant pending_amt_msat >= value of every in-flight path (and pending_fee_msat >= its fee); remove()/insert() are not called on pre-HTLC states (LDK's debug_assert!(false) arms)
+//! trusted: assume_specification for core::cmp::max / core::cmp::min (std definitions): present in every unit so that a change that introduces them is verified instead of being rejected by the tool
 use vstd::prelude::*;
 use std::collections::HashSet;
 verus! {
+use vstd::std_specs::cmp::*;
+use core::cmp;
+pub assume_specification<T: core::cmp::Ord>[core::cmp::max::<T>](a: T, b: T) -> (r: T)
+    ensures T::obeys_cmp_spec() ==> r == (if b.cmp_spec(&a) == core::cmp::Ordering::Less { a } else { b });
+pub assume_specification<T: core::cmp::Ord>[core::cmp::min::<T>](a: T, b: T) -> (r: T)
+    ensures T::obeys_cmp_spec() ==> r == (if b.cmp_spec(&a) == core::cmp::Ordering::Less { b } else { a });
 
 // ---- env (trusted): [u8;32] hashes/compares lawfully ----
 #[verifier::external_body]
